@@ -288,10 +288,18 @@ func (cg *coreGen) setExpr(d int) string {
 	var el []string
 	kind := 0
 	if cg.MapHeavy {
-		kind = g.Intn(4) // 0,1: ints  2: floats  3: strings
+		kind = g.Intn(7) // 0,1: ints  2: floats  3: strings  4: bytes  5: bools  6: mixed element types
 	}
 	for i := 0; i < n; i++ {
-		switch kind {
+		k := kind
+		if kind == 6 {
+			k = g.Intn(6)
+		}
+		switch k {
+		case 4:
+			el = append(el, fmt.Sprintf("byte(%d)", g.Intn(9)))
+		case 5:
+			el = append(el, []string{"true", "false"}[g.Intn(2)])
 		case 2:
 			el = append(el, fmt.Sprintf("%d.%d", g.Intn(20), 1+g.Intn(8)))
 		case 3:
